@@ -28,22 +28,27 @@ def path_count(tables, m, memo=None):
     return total
 
 
-def spec_expand(tables, aliases, m, top=True):
-    """all choices, each rendered with the default patterns: independent enumeration"""
+FORMATS = [("{mother} --> {daughters}", "[{mother} --> {daughters}]"), ("{mother} => {daughters}", "{mother} (=> {daughters})"),
+           ("{mother} -> {daughters}", "[{mother} -> {daughters}]"), ("{daughters} <- {mother}", "({daughters} <- {mother})")]
+DEFAULT_FMT = ("{mother} -> {daughters}", "({mother} -> {daughters})")
+
+
+def spec_expand(tables, aliases, m, top=True, fmt=DEFAULT_FMT):
+    """all choices, each rendered with the patterns in force (default: the library's): independent enumeration"""
     name = aliases.get(m, m)
     out = []
     for fs in tables[m]:
         opts = []
         for d in fs:
             if d in tables and tables[d]:
-                opts.append(spec_expand(tables, aliases, d, top=False))
+                opts.append(spec_expand(tables, aliases, d, top=False, fmt=fmt))
             elif d in tables:
                 opts.append([aliases.get(d, d)])   # empty Decay block: stable, shown under the aliased name
             else:
                 opts.append([d])
         for combo in itertools.product(*opts):
             body = " ".join(sorted(combo))
-            out.append(f"{name} -> {body}" if top else f"({name} -> {body})")
+            out.append((fmt[0] if top else fmt[1]).format(mother=name, daughters=body))
     return out
 
 
@@ -57,6 +62,7 @@ def run(ctx):
     batch = Batch(ctx["driver_ok"])
     n_docs = 200 if tier == "quick" else 2500
     bound = 3000 if tier == "quick" else 50000
+    hist = [0]
 
     def one(p, wire, text, m, label):
         case = {"kind": "expand", "label": label, "text": text if len(text) < 3000 else None, "mother": m}
@@ -84,6 +90,35 @@ def run(ctx):
         res.case(nt, {"mother": m, "descriptors": impl[:4], "count": n} if nt else None)
         res.count("expansions")
         res.count("with_alias" if p.dict_aliases() else "no_alias")
+        if n <= 200 and n >= 1 and hist[0] % 3 == 0:
+            # a descriptor-format context entered and left: inside it the chosen patterns are used, afterwards the format in
+            # force before it is back, for this and every later expansion
+            from decaylanguage.utils import DescriptorFormat
+
+            fmt = FORMATS[hist[0] // 3 % len(FORMATS)]
+            try:
+                with DescriptorFormat(*fmt):
+                    inside = p.expand_decay_modes(m)
+                after = p.expand_decay_modes(m)
+            except Exception as e:
+                inside = after = f"{type(e).__name__}: {e}"
+            want_in = spec_expand(tabs, p.dict_aliases(), m, fmt=fmt)
+            res.count("format_context_histories")
+            hcase = dict(case, format=list(fmt))
+            if inside != want_in:
+                res.violation("inside a descriptor-format context the descriptors do not spell the choices with its patterns", hcase,
+                              impl=inside[:4], model=want_in[:4], clause="each choice once")
+            if after != want:
+                res.violation("after leaving a descriptor-format context the descriptors are not those of the format in force", hcase,
+                              impl=after[:4], model=want[:4], clause="each choice once")
+            if wire is not None and isinstance(inside, list):
+                def onf(ans, hcase=hcase, inside=inside):
+                    if ans is not None and (ans[0] != "ok" or list(ans[1]) != inside):
+                        res.violation("expansion under user patterns differs from the model", hcase, impl=inside[:6],
+                                      model=ans[1][:6] if ans[0] == "ok" else ans, clause="model tie: expand")
+
+                batch.add(["expand_modes_fmt", fmt[0], fmt[1], [True], wire, m], onf)
+        hist[0] += 1
         if wire is not None:
             def on(ans, case=case, impl=impl):
                 if ans is None:
@@ -110,6 +145,21 @@ def run(ctx):
             continue
         for m in p.list_decay_mother_names():
             one(p, wire, text, m, "generated")
+        if i % 3 == 0:
+            # a table set differing in a few values (a dropped or doubled line, exchanged daughters), then the previous one again
+            d2 = gen.sibling_doc(rng, doc, structure=False)
+            for dd, lab in ((d2, "generated:sibling"), (doc, "generated:again")):
+                t2 = render_doc(dd)
+                try:
+                    p2 = DecFileParser.from_string(t2)
+                    p2.parse()
+                    w2 = conv_tree(raw_parse(t2))
+                except Exception:
+                    res.skipped += 1
+                    continue
+                for m in p2.list_decay_mother_names()[:3]:
+                    one(p2, w2, t2, m, lab)
+            res.count("siblings")
 
     import glob
 
